@@ -298,6 +298,7 @@ structure Site where
   line : Nat
   level : Level
   format : String
+  guard : String     -- the conditions of the if statements around the call (inside its function), joined with &&
   args : List Arg
 deriving Repr, DecidableEq
 
@@ -524,11 +525,18 @@ def Arg.ok (known : List Cls) : Arg → Bool
     | none => false
 
 /-- Reviewed exemption: the diagnostic for a reader that claims more bytes than the buffer holds prints
-the raw read error; it is unreachable for connections that honour `io.Reader` (`nr ≤ len(buf)`). -/
-def exemptFormats : List String := ["unexpected read len error - up:%t (%dB): %s"]
+the raw read error (through the package-level logger, i.e. the standard logger on stderr); it is unreachable
+for connections that honour `io.Reader` (`nr ≤ len(buf)`).  The exemption names the guard it was reviewed
+under — the extractor records the conditions around every call — so a call with this format under any other
+guard (a widened one, say `er != nil && nr > 0`) is judged like every other call: guards are not trusted,
+this one text is. -/
+def exemptions : List (String × String) :=
+  [("unexpected read len error - up:%t (%dB): %s", "er != nil && nr > len(buf)")]
+
+def Site.exempt (s : Site) : Bool := exemptions.any fun e => e.1 == s.format && e.2 == s.guard
 
 def Site.ok (tbl : List (Level × Bool)) (known : List Cls) (s : Site) : Bool :=
-  !emittedBy tbl s.level || exemptFormats.contains s.format || s.args.all (Arg.ok known)
+  !emittedBy tbl s.level || s.exempt || s.args.all (Arg.ok known)
 
 /-! ### rendering of a call site in an environment -/
 
